@@ -1338,20 +1338,22 @@ Error CodeHolder::relocate_to_base(uint64_t base_address, RelocationSummary* sum
     }
   }
 
-  // Fixup the virtual size of the address table if it's the last section.
-  if (_sections_by_order.last() == address_table_section) {
-    ASMJIT_ASSERT(address_table_section != nullptr);
-
-    size_t reserved_size = size_t(address_table_section->_virtual_size);
+  if (address_table_section) {
     size_t address_table_size = address_table_entry_size * address_size;
 
+    // The entries written to the address table are its content regardless of where the section is.
     address_table_section->_buffer._size = address_table_size;
-    address_table_section->_virtual_size = address_table_size;
 
-    ASMJIT_ASSERT(reserved_size >= address_table_size);
-    size_t code_size_reduction = reserved_size - address_table_size;
+    // Fixup the virtual size of the address table if it's the last section.
+    if (_sections_by_order.last() == address_table_section) {
+      size_t reserved_size = size_t(address_table_section->_virtual_size);
+      address_table_section->_virtual_size = address_table_size;
 
-    summary_out->code_size_reduction = code_size_reduction;
+      ASMJIT_ASSERT(reserved_size >= address_table_size);
+      size_t code_size_reduction = reserved_size - address_table_size;
+
+      summary_out->code_size_reduction = code_size_reduction;
+    }
   }
 
   return Error::kOk;
